@@ -699,12 +699,13 @@ type SpecSet struct {
 	Guards  []*GuardDecl
 	RawSMT  []string
 	FieldInvs []*FieldInv
+	GhostVars map[string]string // name -> sort
 	Order   []string // function keys in declaration order
 	Lemmas  []*AxiomDecl
 }
 
 func NewSpecSet() *SpecSet {
-	return &SpecSet{Funcs: map[string]*FuncSpec{}, Pures: map[string]*PureDecl{}, Sorts: map[string]string{}}
+	return &SpecSet{Funcs: map[string]*FuncSpec{}, Pures: map[string]*PureDecl{}, Sorts: map[string]string{}, GhostVars: map[string]string{}}
 }
 
 var clauseKeywords = map[string]bool{
@@ -809,6 +810,10 @@ func (ss *SpecSet) LoadSpecFile(path, pkgPath string) error {
 		case "ghost":
 			// ghost field T.f sort
 			f := strings.Fields(rc.text)
+			if len(f) >= 3 && f[0] == "var" {
+				ss.GhostVars[f[1]] = strings.Join(f[2:], " ")
+				continue
+			}
 			if len(f) < 3 || f[0] != "field" {
 				return fail(rc.line, "ghost field T.f sort")
 			}
